@@ -1,16 +1,27 @@
 #!/bin/bash
 # builds /repo (guard BLUETOE_VERIF off) and runs the pinned test suite; exit 0 iff all 70 baseline tests pass
+# usage: run_baseline.sh [repo dir]   (default /repo)
 set -u
-cd /repo
-[ -d _build ] || cmake -G Ninja -B _build -DCMAKE_BUILD_TYPE=RelWithDebInfo >/dev/null 2>&1
-cmake --build _build -j16 -- -k 0 >/tmp/vf_baseline_build.log 2>&1
-ctest --test-dir _build -j16 --timeout 900 >/tmp/vf_baseline_ctest.log 2>&1
-python3 - <<'PY'
+R=${1:-/repo}
+cd "$R"
+if [ ! -f _build/build.ninja ]; then
+  cmake -G Ninja -B _build -DCMAKE_BUILD_TYPE=RelWithDebInfo -DBLUETOE_BUILD_UNIT_TESTS=ON -DBUILD_TESTING=ON \
+        -DCMAKE_CXX_FLAGS=-Wno-error -DCMAKE_COMPILE_WARNING_AS_ERROR=OFF -DCMAKE_POLICY_VERSION_MINIMUM=3.5 \
+        -DCPM_USE_LOCAL_PACKAGES=ON -DFETCHCONTENT_SOURCE_DIR_GOOGLETEST=/usr/src/googletest -DFETCHCONTENT_SOURCE_DIR_GTEST=/usr/src/googletest \
+        -DFETCHCONTENT_TRY_FIND_PACKAGE_MODE=ALWAYS -DFETCHCONTENT_UPDATES_DISCONNECTED=ON >/tmp/vf_baseline_cmake.log 2>&1
+fi
+L=/tmp/vf_baseline_$$
+cmake --build _build -j16 -- -k 0 >$L.build.log 2>&1     # some non-baseline test targets do not compile on this tool chain
+ctest --test-dir _build -j16 --timeout 900 >$L.ctest.log 2>&1
+python3 - $L.ctest.log <<'PY'
 import json,re,sys
 b=json.load(open('/root/.vp/BASELINE.json'))
 want=set(x.split('::')[0] for x in b['stable_pass'])
-passed=set(re.findall(r'Test\s+#\d+: (\S+) \.+\s+Passed', open('/tmp/vf_baseline_ctest.log').read()))
+passed=set(re.findall(r'Test\s+#\d+: (\S+) \.+\s+Passed', open(sys.argv[1]).read()))
 miss=sorted(want-passed)
 print('baseline tests passed: %d of %d' % (len(want&passed), len(want)))
 if miss: print('NOT PASSED:', ' '.join(miss)); sys.exit(1)
 PY
+rc=$?
+rm -f $L.build.log $L.ctest.log
+exit $rc
